@@ -560,7 +560,9 @@ def check(ctx):
                     obj, _accs, _rec = build_heater(repo, interp, units="C", heating=h, cooling=cl, current=20.0 + sign, real_target=20.0)
                     interp.steps = 0
                     got = interp.getattr(obj, "current_operation")
-                except (PyRaise, Undecided) as e:
+                except PyRaise as e:
+                    got = f"raises {e.what}"     # an operation that cannot be read is not the operation the statement names
+                except Undecided as e:
                     raise AnalysisError(f"current_operation: {e}")
                 n += 1
                 want = spec(h, cl, sign)
